@@ -57,8 +57,11 @@ def run(model, col, tier):
                   f"allowed: {ALLOWED_SETREF.get(k)}", f"`{unparse(c)}` assigns a value reference outside the per-function allocator: references are no longer unique within a function", cls.file if cls else None, c)
     fn = model.cls(IR, "Function")
     rv = fn.own_method("RegisterValue")
-    s = unparse(rv)
-    col.check("n = len(self.__values)" in s and "value.SetReference(n)" in s and "self.__values.append(value)" in s, "R14.1", f"{IR}::Function.RegisterValue",
+    from ..sem import alpha as _alpha
+
+    s = _alpha(rv, inline=True)
+    i_set, i_app = s.find("p0.SetReference(len(self.__values))"), s.find("self.__values.append(p0)")
+    col.check(0 <= i_set < i_app, "R14.1", f"{IR}::Function.RegisterValue",
               "fresh reference = index in the function's value list, then the value is appended", "RegisterValue does not hand out len(values) and append the value: references can repeat", IR, rv)
     bb = model.cls(IR, "BasicBlock")
     for meth in ("AddInstruction", "AddInstructionBefore", "AddInstructionAfter"):
@@ -71,13 +74,13 @@ def run(model, col, tier):
         col.check(f"RegisterValue({ip_})" in t and f"{ip_}.SetParent(self)" in t, "R14.1", f"{IR}::BasicBlock.{meth} registers", "the instruction is registered with the function and parented to the block",
                   "an added instruction is not registered (no reference) or not parented", IR, m)
     ai = bb.own_method("AddInstruction")
-    col.check("self.__instructions.append(instruction)" in unparse(ai) and "return instruction" in unparse(ai), "R14.1", f"{IR}::BasicBlock.AddInstruction appends", "appended at the end; returns the instruction", None, IR, ai)
+    col.check("self.__instructions.append(p0)" in _alpha(ai) and "return p0" in _alpha(ai), "R14.1", f"{IR}::BasicBlock.AddInstruction appends", "appended at the end; returns the instruction", None, IR, ai)
     cbb = fn.own_method("CreateBasicBlock")
-    t = unparse(cbb)
-    col.check("BasicBlock(self)" in t and "self.RegisterValue(bb)" in t and "self.__basicBlocks.append(bb)" in t, "R14.1", f"{IR}::Function.CreateBasicBlock", "a block is registered and appended to its function", None, IR, cbb)
+    t = _alpha(cbb)
+    col.check("v0 = BasicBlock(self)" in t and "self.RegisterValue(v0)" in t and "self.__basicBlocks.append(v0)" in t and t.endswith("return v0"), "R14.1", f"{IR}::Function.CreateBasicBlock", "a block is registered and appended to its function", None, IR, cbb)
     wv = model.cls(IR, "VariableAccessInstruction").own_method("WithVariable")
-    t = unparse(wv)
-    col.check("result.SetReference(self.Reference)" in t and "result.SetParent(self.Parent)" in t and "SetStore(self.Store)" in t and "self.__scope" in t, "R14.1", f"{IR}::VariableAccessInstruction.WithVariable",
+    t = _alpha(wv)
+    col.check("v0.SetReference(self.Reference)" in t and "v0.SetParent(self.Parent)" in t and "v0.SetStore(self.Store)" in t and "self.__scope" in t and t.endswith("return v0"), "R14.1", f"{IR}::VariableAccessInstruction.WithVariable",
               "the copy keeps reference, parent, store operand and scope", "the copy does not keep reference/parent/store/scope of the original", IR, wv)
     # ---------------- R14.2 ------------------------------------------------------
     lv = model.cls(LOWER, "LowerToIRVisitor")
